@@ -68,8 +68,10 @@ func c07Gen(class string, seed uint64, tier string) *vfScenario {
 		f.A, f.B, f.S = 1, int64([]int{0, 0, 5, 9, 13}[rng.IntN(5)]+rng.IntN(30)*(rng.IntN(2))), fmt.Sprint(rng.IntN(8))
 	case x < 90:
 		f.A, f.B = 2, int64(rng.IntN(256))
-	default:
+	case x < 96:
 		f.A, f.B = 3, int64(1+rng.IntN(12))
+	default:
+		f.A = 4
 	}
 	sc.Faults = []vfFault{f}
 	return sc
@@ -125,6 +127,7 @@ func c07Enumerate(tier string, base uint64, emit func(*vfScenario)) {
 				add(vfFault{A: 2, B: int64(t)})
 			}
 			add(vfFault{A: 3, B: 5})
+			add(vfFault{A: 4})
 		}
 	}
 }
@@ -160,6 +163,9 @@ func c07Mutate(frame []byte, f vfFault) (out []byte, stopAfter bool) {
 		for i := 0; i < int(f.B); i++ {
 			b = append(b, byte(0x5a+i*7))
 		}
+	case 4:
+		// a zero-length frame in front of an otherwise valid request
+		b = append([]byte{0, 0, 0, 0}, b...)
 	}
 	return b, false
 }
